@@ -15,7 +15,8 @@ variable {ι κ : Type*} [Fintype ι] [Fintype κ]
 theorem dotProduct_self_nonneg' (x : κ → ℝ) : 0 ≤ x ⬝ᵥ x :=
   Finset.sum_nonneg fun i _ => mul_self_nonneg (x i)
 
-theorem l2norm_nonneg (x : κ → ℝ) : 0 ≤ l2norm x := Real.sqrt_nonneg _
+theorem l2norm_nonneg (x : κ → ℝ) : 0 ≤ l2norm x :=
+  Real.sqrt_nonneg _
 
 theorem l2norm_sq (x : κ → ℝ) : l2norm x ^ 2 = x ⬝ᵥ x :=
   Real.sq_sqrt (dotProduct_self_nonneg' x)
